@@ -140,13 +140,13 @@ SUITES = {
     'C05': [('scoping_and_skipped_declarations', _scope, 'the tree walk of variable_references.rs (the Analyzable impls: where and in which order the scope-stack and pruning functions are called), and the surfacing of the errors through the resolver',
              '14 fixed programs; 400 bodies of the family (goto placement, incl. from a block with a local of the same name, x declaration before/after the goto x what stands between label and use x where the use stands); every body of <= 4 (thorough: <= 6) items over {declare a, declare b, use a, use b, conditional goto, label, open block, close block} with valid jumps (947 / 30806 bodies, empty blocks included); 600 (thorough: 6000) random function bodies: <= 24 statements, nesting depth <= 3, 8 variable names, 2 parameters, 2 constants; declarations, assignments, (empty) blocks, if/else, conditional gotos, closing gotos, labels, loops; verdict by an independent definitely-declared dataflow')],
     'C06': [('statement_placement', _placement, 'surfacing of E800/E801/E840 through the resolver',
-             'random function bodies: <= 12 statements, nesting depth <= 3; loop, if/else with and without braces, goto, blocks; each through the analyzer alone and through the whole pipeline (the counts of E840/E800/E801 REPORTED equal the counts by construction)'),
+             'random function bodies: <= 12 statements, nesting depth <= 3; loop, if/else with and without braces, goto, blocks, assignments incl. ones that another pass rejects (to a parameter, to a constant); each through the analyzer alone and through the whole pipeline (the counts of E840/E800/E801 REPORTED equal the counts by construction)'),
             ('lint_l1800', _l1800, 'the path from linter to reported lints; typer in between',
              'random placement-valid bodies (depth <= 4): exactly one L1800 per braced branch whose first statement is loop, none otherwise; in the RESOLVED tree of each accepted program every loop is still the last statement of a block')],
     'C07': [('operators_and_calls', _types, 'the typer (unification, Autocoerce insertion)',
-             'every binary/comparison/unary operator x 15 operand types (identical pairs; 6 random mixed pairs per operator); calls with 0..3 parameters: exact, one argument dropped, one added, one mistyped, & missing; literal operands; all 169 `as` casts; 12 bit casts (pointer to pointer, identical type, integer/pointer mixes, array-view pointers); sized-array pointers; assignments through member/element chains (about 729 programs)'),
+             'every binary/comparison/unary operator x 15 operand types (identical pairs; 6 random mixed pairs per operator); calls with 0..3 parameters: exact, one argument dropped, one added, one mistyped, & missing; literal operands; all 169 `as` casts; 11 negated literals (unsigned, hexadecimal, binary, at 2^127: E550; signed incl. the minimum: accepted); 12 bit casts (pointer to pointer, identical type, integer/pointer mixes, array-view pointers); sized-array pointers; assignments through member/element chains (about 729 programs)'),
             ('typing_of_members_and_addresses', _types_extra, 'typer: typing of structure literal members, of assignments through member/element chains, of address depth',
-             '34 single programs, one obligation each: index/member steps on something that is neither array nor structure (3); an array view behind a pointer assigned to an element (1); excess, exact and missing addresses on arguments, initial values and assigned values (11); a structure literal member of another type (2), an excess address on an argument, well-typed assignments through member/element/pointer chains (6: element of an array member, member of an array element, through a pointer member, word into an array-of-words member, member of such an element, whole array member), ill-typed ones that must be E504 (4), an array view assigned to an array element, through a pointer, and to/through members (6: must be an error - E504 where the member path is involved -, not a failed assertion)')],
+             '38 single programs, one obligation each: pointers passed for value parameters and for parameters one pointer level short (4); index/member steps on something that is neither array nor structure (3); an array view behind a pointer assigned to an element (1); excess, exact and missing addresses on arguments, initial values and assigned values (11); a structure literal member of another type (2), an excess address on an argument, well-typed assignments through member/element/pointer chains (6: element of an array member, member of an array element, through a pointer member, word into an array-of-words member, member of such an element, whole array member), ill-typed ones that must be E504 (4), an array view assigned to an array element, through a pointer, and to/through members (6: must be an error - E504 where the member path is involved -, not a failed assertion)')],
     'C08': [('mutating_uses', _mut, 'the whole-program consequence; the typer',
              'about 110 programs: 7 kinds of target x (assignment, address handed to a writing callee in 15 expression/statement contexts incl. index expressions); the same call WITHOUT & in each context (E513); whole-aggregate copies (E531-E533); local slices; elements/members of constants and of by-value word parameters; & missing on pointer arguments')],
     'C09': [('literal_range_lints', _literals, 'alpha parser (minus folding, signed/bit split), typer literal typing',
@@ -170,7 +170,7 @@ SUITES = {
     'C13': [('determinism', _determinism, 'HashMap/HashSet iteration order in scoper/typer/expander',
              'invalid and valid samples of the repository plus 4 constructed multi-error modules (these 8 times; thorough: 10), each compiled in 3 (thorough: 5) fresh processes'),
             ('diagnostic_locations', _locations, 'alpha parser span bookkeeping (location_of_span, combined_with call sites), error.rs',
-             '4 programs with 10 diagnostics whose primary location must be the line and text of the offending construct (calls, multi-line string literals, undefined names); every Location in the diagnostics of 10 multi-line constructs, 120 (thorough: all 270) prefixes of one module cut at arbitrary characters (the file ends at its last token), 80 by-construction rejected programs, 60 (thorough: all) invalid samples and 40 CRLF variants: inside the source, starting on the reported line'),
+             '8 programs with 14 diagnostics whose primary location must be the line and text of the offending construct (calls, multi-line string literals, undefined names, the last operator of a chain, a non-ABI type directly and behind pointers); every Location in the diagnostics of 10 multi-line constructs, 120 (thorough: all 270) prefixes of one module cut at arbitrary characters (the file ends at its last token), 80 by-construction rejected programs, 60 (thorough: all) invalid samples and 40 CRLF variants: inside the source, starting on the reported line'),
             ('rendering', _render, 'error.rs build_report/write and the ariadne renderer',
              'the diagnostics of all (about 900) by-construction rejected programs of the C07/C08/C09 families and 40 (thorough: all) invalid samples x 4 colour/charset configurations: no failure, no escape sequence when colour is off, ASCII when colour is off and arrows are ascii'),
             ('alpha_lexer_spans', _lexa, 'none (spans are also proved: U-LEXA); kept as replay source', 'as C09.alpha_lexer_tokens'),
